@@ -403,6 +403,22 @@ def parse_driver_output(path, profile, seed, res):
         res.errors.append("driver did not finish: " + path)
 
 
+def escalation(prop, st):
+    """fingerprint-directed effort: if a source file this property depends on differs from the pinned
+    tree, the quick tier runs 4x the cases (never a verdict by itself)"""
+    sys.path.insert(0, os.path.join(ROOT, "tools"))
+    try:
+        import fingerprints
+        ch = fingerprints.changed(os.path.join(REPO, "src"))
+    except Exception as e:  # noqa: BLE001
+        st["fingerprint_error"] = str(e)
+        return 1
+    st["fingerprints_changed"] = ch
+    hit = [f for f in ch if prop in fingerprints.DEPENDS.get(f, [])]
+    st["fingerprints_relevant"] = hit
+    return 4 if hit else 1
+
+
 def stage_run(prop, tier, seed, st, res):
     cfg = PROPS[prop]
     wdir = os.path.join(WORK, prop)
@@ -412,7 +428,10 @@ def stage_run(prop, tier, seed, st, res):
     dist = {}
     t0 = time.time()
     run_corpus(prop, st, res)
+    factor = escalation(prop, st) if tier == "quick" else 1
+    st["escalation_factor"] = factor
     for k, (mode, profile, cases, extra) in enumerate(plan):
+        cases = cases * factor
         tag = "r%d" % k
         if mode == "sweep":
             out = os.path.join(wdir, tag + ".out")
@@ -801,6 +820,8 @@ def write_evidence(prop, tier, seed, st, res, t_start, violations, known, n_oras
         "sweep_cells": int(res.stats.get("sweep_cells", 0)),
         "exhaustive": bool(res.stats.get("sweep_cells", 0)) and cfg.get("exhaustive_sweep", False),
         "translate_ok": st.get("translate_ok"),
+        "fingerprints_changed": st.get("fingerprints_changed"),
+        "escalation_factor": st.get("escalation_factor"),
         "gen_differs_from_pinned": st.get("gen_differs_from_pinned"),
         "print_assumptions": {"count": st.get("print_assumptions"), "closed": st.get("closed"), "axioms": st.get("axioms")},
         "static_scan": st.get("static_scan"),
